@@ -8,7 +8,31 @@ from . import core, viz_common as V
 PROP = "C20"
 DRIVER = "drv_viz"
 LEAN_MODULES = ["MesaModel.Props.C20"]
-THEOREMS = []
+THEOREMS = [
+    "Mesa.Viz.C20_space_agents_exactly_once",
+    "Mesa.Viz.C20_collect_one_entry_per_agent",
+    "Mesa.Viz.C20_entry_is_portrayal_or_default",
+    "Mesa.Viz.C20_location_rule",
+    "Mesa.Viz.C20_V3_inplace_pop_refuted",
+    "Mesa.Viz.C20_scatter_partition",
+    "Mesa.Viz.C20_marker_values",
+    "Mesa.Viz.C20_draw_ok_one_marker_per_agent",
+    "Mesa.Viz.C20_draw_one_marker_per_agent_partial",
+    "Mesa.Viz.C20_draw_fails_iff_optional_not_uniform",
+    "Mesa.Viz.C20_V7_full_statement_refuted",
+    "Mesa.Viz.C20_empty_space_draws_nothing",
+    "Mesa.Viz.C20_hex_marker_at_hexagon_centre",
+    "Mesa.Viz.C20_distinct_locations_distinct_positions",
+    "Mesa.Viz.C20_altair_one_row_per_agent",
+    "Mesa.Viz.C20_altair_row_values",
+    "Mesa.Viz.C20_layer_image_orientation",
+    "Mesa.Viz.C20_layer_hex_orientation",
+    "Mesa.Viz.C20_V8_ravel_refuted",
+    "Mesa.Viz.C20_check_accepts_iff_binds_by_keyword",
+    "Mesa.Viz.C20_check_refuses_var_positional",
+    "Mesa.Viz.C20_split_lossless_disjoint",
+    "Mesa.Viz.C20_creator_checks_all_params",
+]
 COUNTS = {"quick": 1600, "thorough": 24000}
 TRUSTED = [
     "matplotlib: Axes.scatter stores the x/y/s/c/marker/zorder/alpha/edgecolors/linewidths it is given in one PathCollection (read back through get_offsets/get_sizes/get_facecolors/get_edgecolors/get_linewidths/get_zorder/get_paths); colour-name conversion, marker rendering, imshow(origin='lower') putting array row r at height r",
